@@ -7,6 +7,7 @@
 package bind
 
 import (
+	"encoding/csv"
 	"fmt"
 	"net/netip"
 	"net/url"
@@ -182,6 +183,38 @@ func AllowTimeFrame(fs *pflag.FlagSet, cfg *[]ruleset.TimeFrameEntry) {
 			"Allow tunnel traffic only within particular time frames.")
 }
 
+// pathOrBase64List is a list of files or data URIs.
+// The comma in "data:base64,<encoded data>" is part of the value, it does not separate list items.
+type pathOrBase64List struct {
+	*anyflag.SliceValue[string]
+}
+
+func (l pathOrBase64List) Set(val string) error {
+	ss, err := csv.NewReader(strings.NewReader(val)).Read()
+	if err != nil {
+		return err
+	}
+
+	items := make([]string, 0, len(ss))
+	for i := 0; i < len(ss); i++ {
+		s := ss[i]
+		if s == "data:base64" && i+1 < len(ss) {
+			i++
+			s += "," + ss[i]
+		}
+		items = append(items, s)
+	}
+
+	var sb strings.Builder
+	w := csv.NewWriter(&sb)
+	if err := w.Write(items); err != nil {
+		return err
+	}
+	w.Flush()
+
+	return l.SliceValue.Set(strings.TrimSuffix(sb.String(), "\n"))
+}
+
 const pathOrBase64Syntax = "<p/>" +
 	"Syntax:" +
 	"<ul>" +
@@ -303,7 +336,7 @@ func TLSClientConfig(fs *pflag.FlagSet, cfg *forwarder.TLSClientConfig) {
 		"Don't verify the server's certificate chain and host name. "+
 			"Enable to work with self-signed certificates. ")
 
-	fs.Var(anyflag.NewSliceValueWithRedact[string](cfg.CACertFiles, &cfg.CACertFiles, func(val string) (string, error) { return val, nil }, RedactBase64),
+	fs.Var(pathOrBase64List{anyflag.NewSliceValueWithRedact[string](cfg.CACertFiles, &cfg.CACertFiles, func(val string) (string, error) { return val, nil }, RedactBase64)},
 		"cacert-file", "<path or base64>"+
 			"Add your own CA certificates to verify against. "+
 			"The system root certificates will be used in addition to any certificates in this list. "+
